@@ -177,11 +177,17 @@ def lower_bound(prog, body, op, site, depth=0):
         # a field of a call result: `?` on a Result produced by a local closure / function
         if root is not None and root[0] == "place":
             l = root[1]
+            # which component of an `Ok((a, b))` payload: the last tuple field of the projection
+            comp = None
+            flds_ = [str(f) for f in (root[2] or [])]
+            if len(flds_) >= 1 and flds_[-1].isdigit():
+                comp = int(flds_[-1])
             for o in origins(body, {"l": l, "p": []}, transparent=("core::ops::try_trait::Try::branch", "anyhow::Context::with_context", "anyhow::Context::context")):
                 if o.kind == "call":
                     tgt = prog.body_for_callee(o.data, body)
                     if tgt is not None:
-                        return ok_value_lower_bound(prog, tgt, depth + 1)
+                        got = ok_value_lower_bound(prog, tgt, depth + 1, comp) if comp is not None else None
+                        return got if got is not None else ok_value_lower_bound(prog, tgt, depth + 1)
         return 0 if _is_unsigned(body, p) else None
     l = root[1]
     ds = body.defs.get(l, [])
@@ -207,19 +213,92 @@ def _is_unsigned(body, p):
     return ty in ("usize", "u32", "u64", "u8", "u16")
 
 
-def ok_value_lower_bound(prog, fn, depth=0):
-    """min over the `Ok(v)` constructions of fn of lower_bound(v)"""
+def ok_value_lower_bound(prog, fn, depth=0, comp=None):
+    """min over the `Ok(v)` constructions of fn of lower_bound(v) (of component `comp` when v is a tuple built in place); a function
+    that returns `opt.ok_or_else(..)` / `opt.ok_or(..)` gives the bound of the payload of `opt`"""
     res = None
     found = False
+    if depth > 6:
+        return None
     for s in fn.sites():
         n = s.node
         if s.si is not None and n["k"] == "assign" and n["rv"]["k"] == "aggregate" and n["rv"]["agg"].get("path") == "core::result::Result" and n["rv"]["agg"].get("variant") == "Ok":
             found = True
-            lb = lower_bound(prog, fn, n["rv"]["ops"][0], s, depth + 1)
+            opv = n["rv"]["ops"][0]
+            if comp is not None:
+                got = None
+                for o in origins(fn, opv, transparent=()):
+                    if o.kind == "agg" and o.data.get("kind") == "tuple" and comp < len(o.site.node["rv"]["ops"]):
+                        lbc = lower_bound(prog, fn, o.site.node["rv"]["ops"][comp], o.site, depth + 1)
+                        if lbc is None:
+                            return None
+                        got = lbc if got is None else min(got, lbc)
+                    else:
+                        return None
+                lb = got
+            else:
+                lb = lower_bound(prog, fn, opv, s, depth + 1)
             if lb is None:
                 return None
             res = lb if res is None else min(res, lb)
+    if not found and comp is None:
+        for o in origins(fn, {"l": 0, "p": []}, transparent=()):
+            if o.kind == "call" and callee_decl(o.data) in ("core::option::Option::ok_or_else", "core::option::Option::ok_or") and o.site.node["args"]:
+                lb = option_payload_lower_bound(prog, fn, o.site.node["args"][0], depth + 1)
+                if lb is None:
+                    return None
+                found = True
+                res = lb if res is None else min(res, lb)
+            elif o.kind == "call" and is_try_residual(o.data):
+                continue
+            else:
+                return None
     return res if found else None
+
+
+def option_payload_lower_bound(prog, body, op, depth=0):
+    """a proven lower bound of the integer inside `Some(..)` of an Option operand built by adaptors: `filter(|n| *n >= k)` proves k,
+    `map(|n| n as usize)` keeps a non-negative bound, `ok()` of a parse proves nothing"""
+    if depth > 8:
+        return None
+    res = None
+    for o in origins(body, op, transparent=()):
+        if o.kind != "call" or not o.site.node.get("args"):
+            return None
+        d = callee_decl(o.data)
+        a0 = o.site.node["args"][0]
+        clos = [prog.by_target[body.target].get(x) or prog.lib(x) for x in (o.data.get("fn_args") or [])]
+        clos = [c for c in clos if c is not None]
+        if d == "core::option::Option::filter" and len(clos) == 1:
+            inner = option_payload_lower_bound(prog, body, a0, depth + 1)
+            pred = None
+            clo = clos[0]
+            for ro in origins(clo, {"l": 0, "p": []}, transparent=()):
+                if ro.kind == "binop" and ro.data["op"] in ("Ge", "Gt", "Le", "Lt"):
+                    x, y = ro.data["ops"]
+                    kx, ky = op_const(x), op_const(y)
+                    px = any(oo.kind == "param" and oo.data == 2 for oo in origins(clo, x, transparent=())) if op_place(x) is not None else False
+                    py = any(oo.kind == "param" and oo.data == 2 for oo in origins(clo, y, transparent=())) if op_place(y) is not None else False
+                    opn = ro.data["op"]
+                    if px and ky is not None and "int" in ky and opn in ("Ge", "Gt"):
+                        pred = ky["int"] + (1 if opn == "Gt" else 0)
+                    elif py and kx is not None and "int" in kx and opn in ("Le", "Lt"):
+                        pred = kx["int"] + (1 if opn == "Lt" else 0)
+            cand = [v for v in (inner, pred) if v is not None]
+            lb = max(cand) if cand else None
+        elif d == "core::option::Option::map" and len(clos) == 1:
+            inner = option_payload_lower_bound(prog, body, a0, depth + 1)
+            clo = clos[0]
+            same = all(oo.kind == "param" and oo.data == 2 for oo in origins(clo, {"l": 0, "p": []}, transparent=())) and bool(origins(clo, {"l": 0, "p": []}, transparent=()))
+            lb = inner if (same and inner is not None and inner >= 0) else None
+        elif d in ("core::result::Result::ok",):
+            lb = None
+        else:
+            return None
+        if lb is None:
+            return None
+        res = lb if res is None else min(res, lb)
+    return res
 
 
 # ------------------------------------------------------------------------------------------
@@ -1142,6 +1221,23 @@ def rule_iccma_guards(ctx):
                     _, c2, _ = data_deps(rd, c.node["args"][1])
                     if any((callee_of(x) or {}).get("local") and "usize" in (prog.body_for_callee(callee_of(x), rd).ret_ty if prog.body_for_callee(callee_of(x), rd) else "") for x in c2):
                         ok = True
+    if not ok and not lab:
+        # the framework is built by a private helper (`new_framework(n)`): labels 1..=param there, the count handed over here
+        for cs, t in prog.callees(rd, include_closures=False, virtual_dispatch=False):
+            if t.kind == "closure" or not t.path.startswith("io::"):
+                continue
+            for s in t.calls():
+                if not callee_matches(callee_of(s), r"^aa::arguments::ArgumentSet::new_with_labels$"):
+                    continue
+                _, calls, _ = data_deps(t, s.node["args"][0])
+                for c in calls:
+                    if callee_matches(callee_of(c), r"range::RangeInclusive::new$"):
+                        k = op_const(c.node["args"][0])
+                        ups = [o for o in origins(t, c.node["args"][1], transparent=()) if o.kind == "param"]
+                        if k is not None and k.get("int") == 1 and ups and ups[0].data - 1 < len(cs.node["args"]):
+                            _, c2, _ = data_deps(rd, cs.node["args"][ups[0].data - 1])
+                            if any((callee_of(x) or {}).get("local") and "usize" in (prog.body_for_callee(callee_of(x), rd).ret_ty if prog.body_for_callee(callee_of(x), rd) else "") for x in c2):
+                                ok = True
     r.check(ok, rd.id + "|labels", "labels-not-1..=n", "arguments are labelled 1..=n in declaration order", "the arguments are not labelled 1..=n (n read from the preamble)", rd.loc())
     # G2/G6/G7: per inserted id
     for s in ins:
